@@ -5,6 +5,8 @@ package impl
 import (
 	"unsafe"
 
+	"google.golang.org/protobuf/runtime/protoiface"
+
 	"google.golang.org/protobuf/internal/zzverif/nd"
 )
 
@@ -147,4 +149,20 @@ func H_C18_nilmessage() {
 	nd.Reach("initialised")
 	nd.Assert(w1 != nil && w1 == w2, "all callers obtain the same instance")
 	nd.Assert(unsafe.Pointer(w1) == m.p, "the returned instance is the published one")
+}
+
+// H_C05_lazy_deterministic: under Deterministic, lazily stored fields are never passed through as
+// raw bytes (they are decoded and re-encoded), whatever the other marshal flags are.
+//
+//verif:props=C05 bounds=all-marshal-flag-bytes
+func H_C05_lazy_deterministic() {
+	f := nd.Byte()
+	o := marshalOptions{flags: protoiface.MarshalInputFlags(f)}
+	if o.Deterministic() {
+		nd.Reach("deterministic")
+		nd.Assert(!lazyFields(o), "no raw pass-through of lazy fields under Deterministic")
+	} else {
+		nd.Reach("default")
+		nd.Assert(lazyFields(o), "lazy fields stay lazy otherwise")
+	}
 }
